@@ -83,6 +83,43 @@ def oracle_c03(r):
     return out
 
 
+def oracle_preset(r):
+    """a Difficulty that already carries passed_objects(k): the calculator follows the protocol
+    relative to the len() it announced (never more than the map holds), and every value is the
+    one-shot result for the position reached"""
+    s = r.get("preset")
+    if not s:
+        return []
+    pre = f"Difficulty with passed_objects({s['k']}) preset: "
+    if "panic" in s:
+        return [pre + f"op sequence {s['ops']} panicked: {s['panic']}"]
+    if "outs" not in s:
+        return []
+    out = []
+    len0 = s["len0"]
+    if len0 > r["total"]:
+        out.append(pre + f"len() at creation is {len0} but the map has only {r['total']} objects")
+    p = 0
+    for k, (op, o) in enumerate(zip(s["ops"], s["outs"])):
+        n = 0 if op[0] == "next" else (1 << 64) - 1 if op[0] == "last" else op[2]
+        remaining = len0 - p
+        step = min(n + 1, remaining)
+        p += step
+        if o["some"] != (remaining > 0):
+            out.append(pre + f"op #{k} {op} of {s['ops'][:k + 1]}: returned {'Some' if o['some'] else 'None'} "
+                             f"with {remaining} of the announced {len0} objects remaining")
+            break
+        if o["len"] != len0 - p:
+            out.append(pre + f"op #{k} {op} of {s['ops'][:k + 1]}: len() afterwards is {o['len']}, expected "
+                             f"{len0 - p} (announced {len0}, processed min(n+1, remaining) = {step})")
+            break
+        if o["some"] and not o["eq"]:
+            out.append(pre + f"op #{k} {op} of {s['ops'][:k + 1]} with state {r['states'][op[1]]}: gradual "
+                             f"performance differs from one-shot passed_objects({p}): got {o['got']} want {o['want']}")
+            break
+    return out
+
+
 def run(chk, binary, count, max_objects, model=True):
     rc, out, err, dt = harness_run(binary, ["gperf", chk.seed, count, max_objects], timeout=3000)
     if rc != 0:
@@ -111,7 +148,9 @@ def run(chk, binary, count, max_objects, model=True):
         for s in r["seqs"]:
             for op in s["ops"]:
                 chk.dist("gperf.op=" + op[0])
-        for cls, msg in oracle_c03(r):
+        if r.get("preset"):
+            chk.dist("gperf.preset_passed_objects")
+        for cls, msg in [(None, m) for m in oracle_preset(r)] + oracle_c03(r):
             chk.violation(f"{MODES[r['mode']]}: {msg}",
                           {"finding_class": cls, "mode": MODES[r["mode"]], "settings": r["settings"],
                            "map": r["map"], "view": r["view"], "states": r["states"], "case_id": r["id"],
